@@ -396,6 +396,10 @@ func doFormat(w io.Writer, obj Object, opt OutputOptions, needSep bool) (bool, e
 		return true, err
 
 	case Real:
+		if math.IsNaN(float64(x)) || math.IsInf(float64(x), 0) {
+			// "NaN.", "+Inf." and "-Inf." are not PDF numbers
+			return false, fmt.Errorf("cannot write the non-finite number %v", float64(x))
+		}
 		if needSep {
 			_, err := io.WriteString(w, " ")
 			if err != nil {
